@@ -238,6 +238,8 @@ Fixpoint emits_of (ops : list aop) (b : bindings) : list json :=
       match lookup src b with Some v => emits_of r (bset dst v b) | None => emits_of r b end
   | ADel k :: r => emits_of r (bremove k b)
   | ADelAll :: r => emits_of r []
+  | APoke k :: r =>
+      match lookup k b with Some v => emits_of r (bset k (poke v) b) | None => emits_of r b end
   end.
 
 Lemma run_ops_some ops : forall b em,
@@ -253,6 +255,7 @@ Proof.
     + destruct (lookup src b); apply IH.
     + apply IH.
     + apply IH.
+    + destruct (lookup k b); apply IH.
 Qed.
 
 Theorem js_success_emits_in_order p b :
